@@ -77,7 +77,7 @@ def program_of(case):
 
 def symbols_of(case, prog):
     text = gs.render(prog)
-    symbols = fsic.parse_model(text)
+    symbols = pc.parse_model(text)
     if case['strip']:
         endo = [i for i, s in enumerate(symbols) if s.type == P.Type.ENDOGENOUS]
         if endo:
@@ -415,3 +415,9 @@ def replay(ctx, rep, case):
     c = {k: case[k] for k in ('prog', 'labels', 'shape', 'strip', 'strip_pick', 'data_seed')}
     run_case(ctx, rep, c, [])
     print('  text:', json.dumps(c['text']))
+
+
+def search(ctx, rep, disagreements):
+    """Extended failing-input search after a broken proof obligation / correspondence (oracle only, 2x budget)."""
+    ctx.scale = 2
+    run(ctx, rep)
